@@ -46,6 +46,25 @@ P = {
   COMMON_NOTE + "X.509 path validation itself is Go's crypto/x509 (oracle); its verdict is compared with the construction ground truth on every case.",
   "Lean 4 proof (constraint decision logic) + differential correspondence on minted certificate chains",
   "DESIGN.md §5 C07"),
+ "C01": (True,
+  PIPE + "C01 scenarios: 1-2 signer keys from an RSA/ECDSA/Ed25519 pool, one alteration after signing in 4 of 5 cases (any string of the signed layout, drop/reorder/duplicate/corrupt signature, swapped key ids, foreign/wrong/empty verifier key set). Theorems: see evidence (signature check first and exact-content binding over symbolic signatures are being proved over the pipeline model).",
+  COMMON_NOTE + "Unforgeability of RSA-PSS/ECDSA/Ed25519 is not proved (perfect-signature abstraction: a signature verifies iff it was made with that key over exactly those bytes; the harness makes all signatures itself with crypto/* over the bytes the MODEL says are signed).",
+  "Lean 4 proof over pipeline model + differential correspondence on altered signed layouts",
+  "DESIGN.md §5 C01"),
+ "C02": (True,
+  PIPE + "C02 scenarios: per step threshold 0-3, 1-3 authorized keys, honest links plus tampered / unsigned / foreign / other-step key / forged key id / extra signatures / wrong names / garbage / undecodable or corrupted signatures / certificate-signed links with good, expired, foreign-root, missing-intermediate chains and forged first key id; mixed key/certificate steps are run 6x (18x thorough) to observe map-order dependence. Theorems: see evidence (counted = loaded ∧ authorized, distinct ids, order independence being proved).",
+  COMMON_NOTE + "X.509 path validation is an oracle (ground truth by construction).",
+  "Lean 4 proof over pipeline model + differential correspondence on link populations (repeated runs)",
+  "DESIGN.md §5 C02"),
+ "C05": (True,
+  PIPE + "C05 scenarios: thresholds 1-3, counted links agree or one differs in one product path/digest/presence, uncounted links carry other artifacts. Theorems: see evidence (reduction = pairwise agreement, reference irrelevant).",
+  COMMON_NOTE, "Lean 4 proof over pipeline model + differential correspondence incl. returned summary artifacts", "DESIGN.md §5 C05"),
+ "C08": (True,
+  PIPE + "C08 scenarios: two- and three-level nestings with defects at any level. Theorems: see evidence (structural recursion over the link directory; failure propagation in preparation).",
+  COMMON_NOTE + "Symlinked sublayout directories are not modelled.", "Lean 4 proof over pipeline model + differential correspondence on nested link directories", "DESIGN.md §5 C08"),
+ "C09": (True,
+  PIPE + "C09 scenarios: 0-3 inspections from a catalogue of real shell commands (no-op, create/modify/delete, exit 1..255, effect then exit, killed by signal, missing executable, empty argv), final product directory equal to the last step's products or with one file added/removed/modified, with and without run directory (incl. missing/empty). Theorems: see evidence (layout order, exit 0, all-or-prefix execution being proved).",
+  COMMON_NOTE + "What `sh` does for a catalogue command is assumed to be what the catalogue says (create/modify/delete/exit).", "Lean 4 proof over pipeline model + differential correspondence with real inspection commands", "DESIGN.md §5 C09"),
 }
 
 ALL = ["C%02d" % i for i in range(1, 21)]
